@@ -100,8 +100,8 @@ CLAIMED['C16'] = dict(
     engine='symex+smt',
     technique=CHOICE + '; z3 string theory: quoting branch of HandHistory.dumps translated from source vs TOML literal-string grammar',
     text='11 PHH variants: from_game_state -> dumps -> loads equal, second dump identical, replay of the loaded history reproduces actions, cards, stacks, payoffs; corrupted action lines are '
-         'reported; user fields and commentary kept. For all ASCII strings of length <= 8 outside the listed F10 class the emitted TOML string denotes the original (unsat).',
-    note='chips concrete (int + one Decimal family); tomllib/TOML 1.0 grammar transcribed; known finding F10 carved out')
+         'reported; user fields and commentary kept. For all ASCII strings of length <= 7 (thorough: 8) on the literal-string paths of dumps the emitted TOML string denotes the original (unsat); the escaped-string region and quoted keys by execution of dumps/loads over every ASCII code point in 10 contexts and all words <= 3 over 16 character classes.',
+    note='chips concrete (int + one Decimal family); tomllib/TOML 1.0 grammar transcribed; F10 repaired (fix: e2db7c9), its inputs kept as a regression job')
 CLAIMED['C17'] = dict(
     technique=CHOICE + '; oracle from the harness\'s own tally of committed chips',
     text='FT/NT, n=2..3, all fold/call/raise x size choices for the first decisions, voluntary mucks, every viewer seat: ACPC match states and Pluribus line equal the oracle; '
